@@ -57,6 +57,46 @@ func TestDumpCorpus(t *testing.T) {
 	for k := range want {
 		t.Logf("no case of kind %s generated with this seed", k)
 	}
+	// covered range of PSP binaries, exactly (seeded defect c16-2: the round-up of an already
+	// aligned CompressedImageSize): compressed 0x40 / 0x100 signed over the documented range, and
+	// compressed 0x40 signed over 16 bytes more
+	{
+		r := rand.New(rand.NewSource(16))
+		signer := rsaKey(2048, 1)
+		es := []ksEntry{{"root", keyToken(keyID(0xA1), keyID(0xA1), 0, &signer.PublicKey)}}
+		emit := func(name string, compressed bool, size, shift int) {
+			var raw []byte
+			var signedEnd, sigStart int
+			layout, conv := "exact", "uncompressed"
+			if compressed {
+				conv = "compressed"
+			}
+			if shift == 0 {
+				raw, signedEnd, sigStart = pspBinary(r, signer, keyID(0xA1), randBytes(r, size), compressed, 0)
+			} else {
+				layout = "shifted"
+				raw, signedEnd, sigStart = pspBinaryShifted(r, signer, keyID(0xA1), randBytes(r, size), compressed, shift)
+			}
+			bl := &builder{}
+			bl.grow(74)
+			copy(bl.b, efs(0, 0))
+			off := bl.put(r, raw, 6, true)
+			bl.put(r, nil, 20, false)
+			c := core.Case{Kind: "corpus-psp-range-" + layout, Op: "pspentry", Args: map[string]string{
+				"img": core.Hex(bl.b), "off": itoa(off), "len": itoa(len(bl.b) - off), "keyset": showKS2(es), "conv": conv,
+				"signedend": itoa(signedEnd), "sigstart": itoa(sigStart), "siglen": "256", "layout": layout, "mseed": "7"}}
+			b, _ := json.MarshalIndent(c, "", " ")
+			if err := os.WriteFile(filepath.Join(out, name+".json"), b, 0o644); err != nil {
+				t.Fatal(err)
+			}
+		}
+		emit("40-psp-compressed-aligned-0x40-exact", true, 0x40, 0)
+		emit("41-psp-compressed-aligned-0x100-exact", true, 0x100, 0)
+		emit("42-psp-compressed-aligned-0x40-signed-16-more", true, 0x40, 16)
+		emit("43-psp-compressed-unaligned-0x41-exact", true, 0x41, 0)
+		emit("44-psp-uncompressed-0x40-exact", false, 0x40, 0)
+		emit("45-psp-uncompressed-0x40-signed-16-less", false, 0x40, -16)
+	}
 	// the excluded point of psb_token_key_signed: an exponent field 8 bytes longer than the
 	// modulus; the signed prefix 64 + 2·|modulus| ends 8 bytes before the end of the modulus, so
 	// the last 8 modulus bytes are not covered by the (valid) signature
